@@ -215,7 +215,7 @@ Proof. vm_compute. repeat split; reflexivity. Qed.
 
 
 (* ---- the escaping clause for texts in ANY script (any bytes, valid UTF-8 or not) ----
-   LexEscapeU.esc cl w: w written as a bare word with a backslash before every RUNE - as Go's decoder cuts the text, an invalid
+   Escape.esc cl w: w written as a bare word with a backslash before every RUNE - as Go's decoder cuts the text, an invalid
    byte being a rune of its own - that is not a letter, digit or underscore. The whole input f:esc(w) lexes to exactly
    [Literal f; Colon; Literal esc(w); EOF] for EVERY non-empty byte string w; one more oracle fact: U+FFFD is no letter or digit *)
 Theorem C08_escaped_value_is_one_token_any_script : forall cl : Lex.classes,
@@ -226,25 +226,25 @@ Theorem C08_escaped_value_is_one_token_any_script : forall cl : Lex.classes,
   Lex.is_alnum cl Lex.rune_error = false ->
   forall (c0 : ascii) (f : list ascii) (d0 : ascii) (w : list ascii),
   forallb (LexField.wordc cl) (c0 :: f) = true -> Lex.word_type (c0 :: f) = TLiteral ->
-  Lex.word_type (LexEscapeU.esc cl (d0 :: w)) = TLiteral ->
-  Lex.lex cl ((c0 :: f) ++ ":"%char :: LexEscapeU.esc cl (d0 :: w)) =
+  Lex.word_type (Escape.esc cl (d0 :: w)) = TLiteral ->
+  Lex.lex cl ((c0 :: f) ++ ":"%char :: Escape.esc cl (d0 :: w)) =
   [ {| Lex.typ := TLiteral; Lex.val := c0 :: f |}; {| Lex.typ := TColon; Lex.val := [":"%char] |};
-    {| Lex.typ := TLiteral; Lex.val := LexEscapeU.esc cl (d0 :: w) |}; Lex.eof_tok ].
+    {| Lex.typ := TLiteral; Lex.val := Escape.esc cl (d0 :: w) |}; Lex.eof_tok ].
 Proof. exact LexEscapeU.lex_field_escaped_u. Qed.
 
 (* that spelling loses exactly its backslashes, holds a star or question mark only if w does, and on an ASCII text it is the
    byte-level spelling of the ASCII theorems above *)
 Theorem C08_escaped_spelling_any_script_loses_only_its_backslashes : forall (cl : Lex.classes) (l : list ascii),
   forallb (fun c => negb (Ascii.eqb c "\"%char)) l = true ->
-  remove_char "\"%char (string_of_list_ascii (LexEscapeU.esc cl l)) = string_of_list_ascii l.
+  remove_char "\"%char (string_of_list_ascii (Escape.esc cl l)) = string_of_list_ascii l.
 Proof. intros cl l H. exact (QuoteTextU.esc_u_remove cl (List.length l) l (le_n _) H). Qed.
 
 Theorem C08_escaped_spelling_any_script_adds_no_wildcard : forall (cl : Lex.classes) (x : ascii), Ascii.eqb "\"%char x = false -> forall l : list ascii,
-  contains_char x (string_of_list_ascii (LexEscapeU.esc cl l)) = contains_char x (string_of_list_ascii l).
+  contains_char x (string_of_list_ascii (Escape.esc cl l)) = contains_char x (string_of_list_ascii l).
 Proof. intros cl x Hx l. exact (QuoteTextU.esc_u_contains cl x Hx (List.length l) l (le_n _)). Qed.
 
 Theorem C08_escaped_spelling_any_script_is_the_ascii_one_on_ascii : forall (cl : Lex.classes) (l : list ascii),
-  forallb LexEscape.asciib l = true -> LexEscapeU.esc cl l = LexEscape.esc_b cl l.
+  forallb LexEscape.asciib l = true -> Escape.esc cl l = LexEscape.esc_b cl l.
 Proof. intros cl l H. exact (LexEscapeU.esc_u_ascii cl (List.length l) l (le_n _) H). Qed.
 
 (* and from the query TEXT: f:esc(w) handed to ToPostgres delivers w - any bytes without backslash, star, question mark, not
@@ -258,10 +258,10 @@ Theorem C08_escaped_text_to_rows_any_script :
   Lex.is_alnum cl Lex.rune_error = false ->
   forall (c0 : ascii) (f : list ascii) (d0 : ascii) (w : list ascii),
   forallb (LexField.wordc cl) (c0 :: f) = true -> Lex.word_type (c0 :: f) = TLiteral ->
-  Lex.word_type (LexEscapeU.esc cl (d0 :: w)) = TLiteral ->
+  Lex.word_type (Escape.esc cl (d0 :: w)) = TLiteral ->
   forallb (fun c => negb (Ascii.eqb c "\"%char)) (d0 :: w) = true ->
   let fs := string_of_list_ascii (c0 :: f) in let ws := string_of_list_ascii (d0 :: w) in
-  let es := string_of_list_ascii (LexEscapeU.esc cl (d0 :: w)) in
+  let es := string_of_list_ascii (Escape.esc cl (d0 :: w)) in
   contains_char "*"%char ws = false -> contains_char "?"%char ws = false ->
   atoi es = None -> match parse_float o es with Some x => is_nan_or_inf o x = true | None => True end ->
   parse_literal o {| typ := TLiteral; val := fs |} = lit (VStr fs) ->
@@ -282,10 +282,10 @@ Theorem C08_escaped_text_to_parameter_any_script :
   Lex.is_alnum cl Lex.rune_error = false ->
   forall (c0 : ascii) (f : list ascii) (d0 : ascii) (w : list ascii),
   forallb (LexField.wordc cl) (c0 :: f) = true -> Lex.word_type (c0 :: f) = TLiteral ->
-  Lex.word_type (LexEscapeU.esc cl (d0 :: w)) = TLiteral ->
+  Lex.word_type (Escape.esc cl (d0 :: w)) = TLiteral ->
   forallb (fun c => negb (Ascii.eqb c "\"%char)) (d0 :: w) = true ->
   let fs := string_of_list_ascii (c0 :: f) in let ws := string_of_list_ascii (d0 :: w) in
-  let es := string_of_list_ascii (LexEscapeU.esc cl (d0 :: w)) in
+  let es := string_of_list_ascii (Escape.esc cl (d0 :: w)) in
   contains_char "*"%char ws = false -> contains_char "?"%char ws = false ->
   atoi es = None -> match parse_float o es with Some x => is_nan_or_inf o x = true | None => True end ->
   parse_literal o {| typ := TLiteral; val := fs |} = lit (VStr fs) ->
@@ -306,11 +306,11 @@ Example c08_any_script_premises_are_met :
   (Lex.is_letter cl 34%N = false /\ Lex.is_digit cl 34%N = false) /\ (Lex.is_letter cl 58%N = false /\ Lex.is_digit cl 58%N = false) /\
   (Lex.is_letter cl 92%N = false /\ Lex.is_digit cl 92%N = false) /\ Lex.is_alnum cl Lex.rune_error = false /\
   forallb (LexField.wordc cl) f = true /\ Lex.word_type f = TLiteral /\
-  LexEscapeU.esc cl w = list_ascii_of_string "caf" ++ [ascii_of_nat 195; ascii_of_nat 169] ++ list_ascii_of_string "\ \(\" ++ [ascii_of_nat 255] ++ list_ascii_of_string "\)\ "
+  Escape.esc cl w = list_ascii_of_string "caf" ++ [ascii_of_nat 195; ascii_of_nat 169] ++ list_ascii_of_string "\ \(\" ++ [ascii_of_nat 255] ++ list_ascii_of_string "\)\ "
            ++ [ascii_of_nat 195; ascii_of_nat 175] ++ list_ascii_of_string "\:x" /\
-  Lex.word_type (LexEscapeU.esc cl w) = TLiteral /\ forallb (fun c => negb (Ascii.eqb c "\"%char)) w = true /\
+  Lex.word_type (Escape.esc cl w) = TLiteral /\ forallb (fun c => negb (Ascii.eqb c "\"%char)) w = true /\
   contains_char "*"%char (string_of_list_ascii w) = false /\ contains_char "?"%char (string_of_list_ascii w) = false /\
-  atoi (string_of_list_ascii (LexEscapeU.esc cl w)) = None /\ parse_float o (string_of_list_ascii (LexEscapeU.esc cl w)) = None /\
+  atoi (string_of_list_ascii (Escape.esc cl w)) = None /\ parse_float o (string_of_list_ascii (Escape.esc cl w)) = None /\
   parse_literal o {| typ := TLiteral; val := string_of_list_ascii f |} = lit (VStr (string_of_list_ascii f)) /\
   name_ok (string_of_list_ascii f) = true /\ col_ok o2 (string_of_list_ascii f) = true /\ lit_ok o2 (sqs (string_of_list_ascii w)) = true.
 Proof. vm_compute. repeat split; reflexivity. Qed.
